@@ -11,6 +11,16 @@ part `ase-basis`   N = 8: ALL 32 impulse answers e_(r,k) -> the complete real 32
 part `non-optical` every non-optical input class x BW -> TypeError.
 part `conformance` real numpy RNG (np.random.seed), 2^16 samples: binds the scripted seam to the
                    real generator; six-sigma bands from the property text.
+part `lattice`     (hardening pass) all configurations with <= 2 deviations from a base point over EXTENDED
+                   alphabets: lengths 1..4097, dark/noise-only polarisations and an EDFA cascade, every sample
+                   dtype (and noise of another dtype than the signal), G/NF at and one ulp inside the documented
+                   limits as int/float/numpy scalars/0-d arrays, gv configured in every documented way, BW from
+                   0.001 fs to one ulp below fs, input scale 1e-12..1e6 and a large DC offset, keyword call
+                   forms, write-protected inputs, library-made containers; same oracle as `scripted`.
+part `sequence`    ONE shared input object through call sequences: grid switches g1,g2,g1 (wavelength / fs / the
+                   way gv is configured, with and without gv.clean()), parameter sweeps, EDFA chains.
+part `fluct`       real RNG, very short records (N = 1..4), K = 2^16/N repeated calls on one shared input: the
+                   realised ASE power must fluctuate like (P/4N) chi2(4N); pooled Gaussian statistics.
 
 Reference model (boring): out.signal = g*in.signal in rows present, 0 in y for 1-pol input;
 out.noise(answer) = g*in.noise (same rows) + L(answer), L = sqrt(P/4) x (an isometry of R^(4N));
@@ -37,10 +47,91 @@ NKINDS = ['absent', 'zero', 'complex', 'real', 'absent-realsig', 'int', 'absent-
 ANSWERS = ['zero', 'u0', 'u1', 'u2', 'u3', 'seeded']
 
 
+# ------------------------------------------------------------------ scalar / option spellings
+# A scalar argument (G, NF) is either a plain Python number or ('form', value): the same value as a numpy scalar / 0-d array
+NPFORMS = {'np.int64': np.int64, 'np.int32': np.int32, 'np.float64': np.float64, 'np.float32': np.float32,
+           'np.float16': np.float16, '0d': np.array}
+
+
+def arg(spec):
+    """the object that is passed to the library"""
+    return NPFORMS[spec[0]](spec[1]) if isinstance(spec, tuple) else spec
+
+
+def val(spec):
+    """its value as a double (np.float32(17.3) is the float32 nearest to 17.3: that value is the argument)"""
+    return float(arg(spec))
+
+
+def seps(spec):
+    """working precision of a scalar spelling: a float16/float32 scalar may legitimately be processed in its own precision"""
+    if isinstance(spec, tuple) and spec[0] in ('np.float32', 'np.float16'):
+        return float(np.finfo(NPFORMS[spec[0]]).eps)
+    return EPS
+
+
+def aeps(a):
+    """working precision of an array: float16/float32/complex64 samples may be processed in their own precision"""
+    if a is not None and a.dtype.kind in 'fc' and a.dtype.itemsize < (8 if a.dtype.kind == 'f' else 16):
+        return float(np.finfo(a.dtype).eps)
+    return EPS
+
+
+def opt(opts, key, default=None):
+    return dict(opts).get(key, default)
+
+
+def bw_arg(bwspec, fs):
+    """BW spelling: None | fraction of fs | ('int'|'np.int64'|'np.float64'|'np.float32', fraction)"""
+    if bwspec is None:
+        return None
+    if isinstance(bwspec, tuple):
+        form, f = bwspec
+        v = f * fs
+        return {'int': lambda q: int(round(q)), 'np.int64': lambda q: np.int64(round(q)), 'np.float64': np.float64, 'np.float32': np.float32}[form](v)
+    return bwspec * fs
+
+
 # ------------------------------------------------------------------ inputs
-@functools.lru_cache(maxsize=64)
-def build_arrays(N, layout, nkind, seed):
-    """(signal, noise|None) arrays of the input (read-only, cached); content: deterministic ramp/tone + seeded field"""
+INT_DT = {'bool': np.bool_, 'int8': np.int8, 'uint8': np.uint8, 'int16': np.int16, 'int32': np.int32, 'int': np.int64, 'int64': np.int64}
+FLT_DT = {'float16': np.float16, 'float32': np.float32, 'float64': np.float64, 'complex64': np.complex64, 'complex128': np.complex128,
+          'real': np.float64, 'complex': np.complex128}
+DTYPE_KINDS = ['bool', 'int8', 'uint8', 'int16', 'int32', 'float16', 'float32', 'complex64']
+
+
+def cast(a, dt, unit, offset):
+    """complex field -> samples of the dtype class `dt` (integers: a/unit rounded, `offset` added for the signed ones)"""
+    if dt == 'intfloat':
+        return np.rint(a.real / unit) + offset
+    if dt in INT_DT:
+        v = np.rint(a.real / unit)
+        if dt == 'bool':
+            return v > 0
+        if dt == 'uint8':
+            return np.abs(v).astype(np.uint8)
+        return (v + offset).astype(INT_DT[dt])
+    t = FLT_DT[dt]
+    return np.ascontiguousarray(a.astype(t) if np.dtype(t).kind == 'c' else a.real.astype(t))
+
+
+def kind_dtypes(nkind):
+    """noise kind -> (signal dtype class, noise dtype class | None, noise content, assigned after construction?)"""
+    if nkind.startswith('mixed:'):                      # noise of another dtype than the signal (assigned after construction:
+        sd, nd = nkind[6:].split('/')                   # the constructor would promote both to the common type)
+        return sd, nd, 'field', True
+    if nkind == 'absent':
+        return 'complex', None, None, False
+    if nkind.startswith('absent-'):
+        return {'realsig': 'real', 'intsig': 'int'}.get(nkind[7:], nkind[7:-3]), None, None, False
+    if nkind in ('zero', 'zero-sum'):
+        return 'complex', 'complex', nkind, False
+    return nkind, nkind, 'field', False
+
+
+@functools.lru_cache(maxsize=512)
+def build_arrays(N, layout, nkind, seed, scale=1):
+    """(signal, noise|None, late) arrays of the input (read-only, cached); content: deterministic ramp/tone + seeded field.
+    `scale`: factor on the whole input, or 'dc' = DC offset 1 with a 1e-6 variation. late: noise to be assigned after construction"""
     rs = np.random.RandomState([int(seed) % (2 ** 31), N, 1010])
     k = np.arange(N)
     A = math.sqrt(1e-3)            # ~ 0 dBm
@@ -49,44 +140,69 @@ def build_arrays(N, layout, nkind, seed):
     sg = A / 20                    # OSNR_in ~ 26 dB
     n1 = sg * ((-1.0) ** k * (0.5 + 0.5j) + 0.5 * (rs.randn(N) + 1j * rs.randn(N)))
     n2 = sg * ((-1.0) ** (k // 2) * (0.5 - 0.5j) + 0.5 * (rs.randn(N) + 1j * rs.randn(N)))
+    z = np.zeros(N, complex)
     if layout == '1pol':
         sig, noi = s1, n1
-    elif layout == '2pol':
-        sig, noi = np.array([s1, s2]), np.array([n1, n2])
-    elif layout == '2pol-empty-y':
-        sig, noi = np.array([s1, np.zeros(N)]), np.array([n1, n2])
     else:
-        raise AssertionError(layout)
-    if nkind in ('absent', 'absent-realsig', 'absent-intsig'):
-        noi = None
-    elif nkind == 'zero':
+        sig, noi = {'2pol': ([s1, s2], [n1, n2]), '2pol-empty-y': ([s1, z], [n1, n2]), '2pol-empty-x': ([z, s2], [n1, n2]),
+                    '2pol-dark': ([z, z], [n1, n2]),                      # source switched off: noise only
+                    '2pol-noise-x-only': ([s1, s2], [n1, z]), '2pol-noise-y-only': ([s1, s2], [z, n2])}[layout]
+        sig, noi = np.array(sig), np.array(noi)
+    sd, nd, content, late = kind_dtypes(nkind)
+    if scale == 'dc':
+        sig = np.where(sig != 0, 1.0 + 1e-6 * sig / A, 0)
+    else:
+        sig, noi = sig * scale, noi * scale
+    if content == 'zero':
         noi = np.zeros_like(noi)
-    if nkind in ('real', 'absent-realsig'):
-        sig = np.ascontiguousarray(sig.real)
-        if noi is not None:
-            noi = np.ascontiguousarray(noi.real)
-    if nkind in ('int', 'absent-intsig'):
-        sig = np.rint(sig.real * 8).astype(np.int64) + 1
-        if noi is not None:
-            noi = np.rint(noi.real * 64).astype(np.int64)
+    elif content == 'zero-sum':     # every sample is followed by its negative: the sum over the record is exactly 0
+        noi = noi.copy()
+        noi[..., 1::2] = -noi[..., 0:2 * (N // 2):2]
+        if N % 2:
+            noi[..., -1] = 0
+    sig = cast(sig, sd, A / 4, 1)             # integer classes: signal levels about -5 .. 7
+    noi = None if nd is None else cast(noi, nd, sg / 2, 0)      # noise levels about -3 .. 3
     sig.flags.writeable = False
     if noi is not None:
         noi.flags.writeable = False
-    return sig, noi
+    return sig, noi, late
 
 
-def build_input(N, layout, nkind, seed):
+def make_input(N, layout, nkind, seed, opts=()):
+    """a fresh input object of the case, its content (snapshots taken from the object) and its number of polarisations"""
     from opticomlib.typing import optical_signal
-    sig, noi = build_arrays(N, layout, nkind, seed)
-    x = optical_signal(sig.copy(), None if noi is None else noi.copy())
+    ctor = opt(opts, 'ctor', 'ndarray')
+    cascade = layout == 'cascade'
+    sig, noi, late = build_arrays(N, '1pol' if cascade else layout, nkind, seed, opt(opts, 'scale', 1))
+    early = None if (noi is None or late) else noi
+    if ctor == 'list':
+        x = optical_signal(sig.tolist(), None if early is None else early.tolist())
+    else:
+        x = optical_signal(sig.copy(), None if early is None else early.copy())
+    if late:
+        x.noise = noi.copy()
+        assert ctor == 'list' or x.noise.dtype != x.signal.dtype, 'harness: mixed dtypes'
+    if ctor == 'slice':            # containers made by the library itself
+        x = x[:]
+    elif ctor == 'copy':
+        x = x.copy()
+    if cascade:                    # the output of a first amplifier (x carries signal, y is dark but noisy) is the input
+        from opticomlib.devices import EDFA
+        b = np.random.RandomState([int(seed) % (2 ** 31), N, 5050]).randn(4, N)
+        with scripted_rng(ScriptedRNG(lambda kind, info: b if kind == 'randn' and info['size'] == (4, N) else None)):
+            x = EDFA(x, 10, 5)
     npol = 1 if layout == '1pol' else 2
-    assert x.n_pol == npol and x.signal.shape == sig.shape, 'harness: input construction'
-    if nkind == 'real':
+    assert x.n_pol == npol and np.shape(x.signal) == ((N,) if npol == 1 else (2, N)), 'harness: input construction'
+    if nkind == 'real' and not cascade and ctor == 'ndarray':
         assert x.signal.dtype == np.float64 and x.noise.dtype == np.float64, 'harness: real dtype input'
-    return x, sig, noi, npol
+    return x, np.array(x.signal), None if x.noise is None else np.array(x.noise), npol
 
 
-@functools.lru_cache(maxsize=16)
+def snapshot(x):
+    return [None if a is None else (a.dtype.str, a.shape, a.tobytes()) for a in (x.signal, x.noise)]
+
+
+@functools.lru_cache(maxsize=32)
 def seeded_answer(N, seed):
     rs = np.random.RandomState([int(seed) % (2 ** 31), N, 4040])
     a = rs.randn(4, N)
@@ -100,8 +216,8 @@ def unit_answer(N, r):
     return a
 
 
-def p_ase(G, NF, wl, fs):
-    return 10 ** (NF / 10) * H_PLANCK * (C0 / wl) * (10 ** (G / 10) - 1) * fs
+def p_ase(G, NF, f0, fs):
+    return 10 ** (NF / 10) * H_PLANCK * f0 * (10 ** (G / 10) - 1) * fs
 
 
 def gain(G):
@@ -109,31 +225,63 @@ def gain(G):
 
 
 # ------------------------------------------------------------------ calling the real thing
-def call_edfa(cfg, ans, BW):
-    """one execution of the real EDFA on a fresh input under a scripted RNG.
+def set_grid(wl, fs, opts=()):
+    """configure gv for a case; returns (fs, f0) of the reference: own values for the plain form, gv's attributes
+    (read before the EDFA call) when the grid is configured through another documented spelling"""
+    spec = opt(opts, 'gv')
+    if spec is None:
+        gv_reset(fs=fs, wavelength=wl)
+        return fs, C0 / wl
+    gv = gv_reset(**dict(spec))
+    return float(gv.fs), float(gv.f0)
+
+
+def run_edfa(x, G, NF, BW, ans, N, form='pos', stats=None):
+    """one execution of the real EDFA on the object x under a scripted RNG (gv as it is).
     returns (status, value, requests): ('ok', output) | ('exc', exception)"""
     from opticomlib.devices import EDFA
-    N, layout, nkind, G, NF, wl, fs, seed = cfg
-    gv_reset(fs=fs, wavelength=wl)
-    x, _, _, _ = build_input(N, layout, nkind, seed)
 
     def answer(kind, info):
         if kind == 'randn' and info['size'] == (4, N) and ans is not None:
             return ans
         return None
     rng = ScriptedRNG(answer)
+    before = snapshot(x)
+    Ga, NFa = arg(G), arg(NF)
     try:
         with scripted_rng(rng):
-            y = EDFA(x, G, NF) if BW is None else EDFA(x, G, NF, BW)
+            if form == 'pos':
+                y = EDFA(x, Ga, NFa) if BW is None else EDFA(x, Ga, NFa, BW)
+            elif form == 'kw':
+                y = EDFA(input=x, G=Ga, NF=NFa) if BW is None else EDFA(BW=BW, NF=NFa, G=Ga, input=x)
+            else:   # 'kw-mixed'
+                y = EDFA(x, Ga, NF=NFa, BW=BW)
     except Unscripted:
         raise
     except Exception as e:  # library exception: classified by the caller
         return 'exc', e, rng.requests
+    finally:
+        if stats is not None:
+            stats['edfa_calls'] = stats.get('edfa_calls', 0) + 1
+            if snapshot(x) != before:      # statement silent on the purity of the input: recorded, not a violation
+                stats['input_object_changed'] = stats.get('input_object_changed', 0) + 1
     return 'ok', y, rng.requests
 
 
-def structure(y, N):
-    """[] if y is a 2-pol optical_signal of N samples, else violations"""
+def call_edfa(cfg, ans, bwspec, opts=(), stats=None):
+    """the same on a FRESH input of the configuration, gv configured anew"""
+    N, layout, nkind, G, NF, wl, fs, seed = cfg
+    fs_, _ = set_grid(wl, fs, opts)
+    x, _, _, _ = make_input(N, layout, nkind, seed, opts)
+    if opt(opts, 'frozen'):                # write-protected buffers: a legal input like any other
+        for a in (x.signal, x.noise):
+            if a is not None:
+                a.flags.writeable = False
+    return run_edfa(x, G, NF, bw_arg(bwspec, fs_), ans, N, opt(opts, 'call', 'pos'), stats)
+
+
+def structure(y, N, finite=True):
+    """[] if y is a 2-pol optical_signal of N finite samples, else violations"""
     from opticomlib.typing import optical_signal
     if not isinstance(y, optical_signal):
         return [('shape:not-optical_signal', f'EDFA returned {type(y).__name__}')]
@@ -141,14 +289,24 @@ def structure(y, N):
         return [('shape:not-2pol', f'n_pol={y.n_pol} signal.shape={np.shape(y.signal)} expected (2,{N})')]
     if y.noise is not None and np.shape(y.noise) != (2, N):
         return [('shape:noise-not-2pol', f'noise.shape={np.shape(y.noise)} expected (2,{N})')]
+    for name in ('signal', 'noise') if finite else ():   # finite input, G <= 40 dB: nothing can overflow (G = 0 dB: P_ase = 0, not 0/0)
+        a = getattr(y, name)
+        if a is not None and not np.all(np.isfinite(a)):
+            return [(f'nonfinite:{name}', f'output {name} has {int(np.sum(~np.isfinite(a)))} non-finite sample(s) for a finite input')]
     return []
 
 
-def near(a, b, k=8):
+def near(a, b, k=8, eps=EPS):
     """elementwise |a-b| <= k*eps*|b| : one pow, one sqrt, one (complex) product => a few ulp"""
     a = np.asarray(a)
     b = np.asarray(b)
-    return a.shape == b.shape and bool(np.all(np.abs(a - b) <= k * EPS * np.abs(b)))
+    return a.shape == b.shape and bool(np.all(np.abs(a - b) <= k * eps * np.abs(b)))
+
+
+def wide(a):
+    """samples as double / double complex (exact for every sample dtype of the alphabet)"""
+    a = np.asarray(a)
+    return a.astype(complex if a.dtype.kind == 'c' else float)
 
 
 def noise_of(y, N):
@@ -178,45 +336,41 @@ def canon(y):
     return (s.dtype.str, s.shape, s.tobytes(), None if n is None else (n.dtype.str, n.shape, n.tobytes()))
 
 
-# ------------------------------------------------------------------ part: scripted
-def case_scripted(case):
-    N, layout, nkind, G, NF, wl, fs, bwf, akind, seed = case
-    cfg = (N, layout, nkind, G, NF, wl, fs, seed)
-    BW = None if bwf is None else bwf * fs
-    sig, noi = build_arrays(N, layout, nkind, seed)
-    npol = 1 if layout == '1pol' else 2
-    g, P = gain(G), p_ase(G, NF, wl, fs)
+# ------------------------------------------------------------------ the oracle of one configuration under one answer kind
+def check_scripted(call, sig, noi, npol, N, nkind, G, NF, fs, f0, BW, akind, seed, stats):
+    """call(answer, BW) executes the real EDFA on the configuration's input (content sig / noi, npol polarisations).
+    returns (violations, observation, nontrivial)"""
+    Gv, NFv = val(G), val(NF)
+    g, P = gain(Gv), p_ase(Gv, NFv, f0, fs)
     amp = math.sqrt(P / 4)
-    viol, stats = [], {'edfa_calls': 0}
+    eps_p = max(seps(G), seps(NF))                  # precision of the scalar spellings
+    eps_s = max(aeps(sig), seps(G))                 # ... of the signal path
+    eps_n = max(aeps(noi), seps(G))                 # ... of the path of the incoming noise
+    viol = []
     if akind == 'zero':
         ans = None
     elif akind == 'seeded':
         ans = seeded_answer(N, seed)
     else:
         ans = unit_answer(N, int(akind[1]))
-
-    def call(a, bw):
-        stats['edfa_calls'] += 1
-        return call_edfa(cfg, a, bw)
-
-    nonzero_noise = nkind in ('complex', 'real', 'int')
-    nt = G > 0 and (nonzero_noise or akind != 'zero')
+    nonzero_noise = noi is not None and bool(np.any(noi != 0))
+    nt = Gv > 0 and (nonzero_noise or akind != 'zero')
+    sig, noi = wide(sig), None if noi is None else wide(noi)
 
     # ---------------- unfiltered execution under this case's answer
     st, y, reqs = call(ans, None)
     if st == 'exc':
         viol.append(exc_key(y, nkind))
-        return res(viol, obs=('EXC', type(y).__name__, str(bwf)), nontrivial=nt, stats=stats)
+        return viol, ('EXC', type(y).__name__, repr(BW)), nt
     viol += req_check(reqs, N)
     sv = structure(y, N)
     if sv:
-        return res(viol + sv, obs=('STRUCT', sv[0][0]), nontrivial=nt, stats=stats)
+        return viol + sv, ('STRUCT', sv[0][0]), nt
 
     if BW is not None:
-        # ------------ band-limiting clause: EDFA(BW) == BPF(unfiltered twin, BW) for the same answer
+        # ------------ band-limiting clause: EDFA(BW) == BPF(unfiltered twin, BW) for the same answer (gv as the calls left it)
         from opticomlib.devices import BPF
         st2, yb, reqs2 = call(ans, BW)
-        gv_reset(fs=fs, wavelength=wl)
         try:
             ref = BPF(y, BW)
             ref_exc = None
@@ -225,17 +379,20 @@ def case_scripted(case):
         if st2 == 'exc':
             if ref_exc is not None and type(ref_exc) is type(yb):
                 stats['bw_filter_rejects_record'] = 1
-                return res(viol, obs=('BW-EXC', type(yb).__name__), nontrivial=False, stats=stats)
+                return viol, ('BW-EXC', type(yb).__name__), False
             viol.append((f'bw:exc:{type(yb).__name__}', f'EDFA(BW={BW:g}) raised {type(yb).__name__}: {yb} while BPF(EDFA(BW=None), BW) '
                          + ('returns' if ref_exc is None else f'raises {type(ref_exc).__name__}')))
-            return res(viol, obs=('BW-EXC', type(yb).__name__), nontrivial=nt, stats=stats)
+            return viol, ('BW-EXC', type(yb).__name__), nt
         viol += req_check(reqs2, N)
+        if ref_exc is None and structure(ref, N):
+            stats['bw_filter_output_not_finite'] = 1          # the filter itself overflows on this record: C11's business
+            return viol, ('BW-NONFINITE',), False
         sv = structure(yb, N)
         if sv:
-            return res(viol + sv, obs=('STRUCT', sv[0][0]), nontrivial=nt, stats=stats)
+            return viol + sv, ('STRUCT', sv[0][0]), nt
         if ref_exc is not None:
             stats['bw_edfa_returns_where_BPF_raises'] = 1     # statement silent: accepted
-            return res(viol, obs=canon(yb), nontrivial=nt, stats=stats)
+            return viol, canon(yb), nt
         # same filter on the same data: rounding only. forward-backward 4th order Bessel, unit DC gain:
         # <= 16*N*eps*max|x| allows any evaluation order of the same linear filter
         for name in ('signal', 'noise'):
@@ -250,15 +407,15 @@ def case_scripted(case):
             if np.shape(a) != np.shape(b) or not np.all(np.abs(np.asarray(a) - np.asarray(b)) <= tol):
                 d = float(np.max(np.abs(np.asarray(a) - np.asarray(b)))) if np.shape(a) == np.shape(b) else float('nan')
                 viol.append((f'bw:{name}!=BPF(twin)', f'EDFA(..., BW={BW:g}).{name} differs from BPF(EDFA(..., BW=None), BW).{name} by {d:.3g} (tol {tol:.3g})'))
-        return res(viol, obs=canon(yb), nontrivial=nt, stats=stats)
+        return viol, canon(yb), nt
 
     # ---------------- signal clause (every answer: the signal must not depend on the RNG)
     S = np.asarray(y.signal)
     rows = slice(0, npol)
     want = g * (sig if npol == 2 else sig[None, :])
-    if not near(S[rows], want):
+    if not near(S[rows], want, eps=eps_s):
         d = float(np.max(np.abs(S[rows] - want)))
-        viol.append(('signal:!=sqrtG*in', f'signal differs from sqrt(G)*input.signal by {d:.3g} in the rows present (G={G} dB)'))
+        viol.append(('signal:!=sqrtG*in', f'signal differs from sqrt(G)*input.signal by {d:.3g} in the rows present (G={Gv:g} dB)'))
     if npol == 1 and np.any(S[1] != 0):
         viol.append(('signal:y-row-nonzero:1pol', f'y-row of the signal is not 0 for a 1-pol input (max {float(np.max(np.abs(S[1]))):.3g})'))
 
@@ -269,10 +426,10 @@ def case_scripted(case):
         st0, y0, reqs0 = call(None, None)
         if st0 == 'exc':
             viol.append(exc_key(y0, nkind))
-            return res(viol, obs=('EXC', type(y0).__name__), nontrivial=nt, stats=stats)
+            return viol, ('EXC', type(y0).__name__), nt
         sv = structure(y0, N)
         if sv:
-            return res(viol + sv, obs=('STRUCT', sv[0][0]), nontrivial=nt, stats=stats)
+            return viol + sv, ('STRUCT', sv[0][0]), nt
     Z0 = noise_of(y0, N)
 
     if akind == 'zero':
@@ -281,9 +438,9 @@ def case_scripted(case):
                 viol.append(('noise:nonzero:noise-free-input+zero-ASE', f'noise-free input and zero ASE answer but output noise max {float(np.max(np.abs(Z0))):.3g}'))
         else:
             nin = noi if npol == 2 else noi[None, :]
-            if not near(Z0[rows], g * nin):
-                if g != 1 and near(Z0[rows], nin):
-                    viol.append(('noise:not-amplified', f'incoming noise passes with gain 1 instead of sqrt(G)={g:.6g} (G={G} dB): '
+            if not near(Z0[rows], g * nin, eps=eps_n):
+                if g != 1 and near(Z0[rows], nin, eps=eps_n):
+                    viol.append(('noise:not-amplified', f'incoming noise passes with gain 1 instead of sqrt(G)={g:.6g} (G={Gv:g} dB): '
                                  f'max|out-sqrtG*in|={float(np.max(np.abs(Z0[rows] - g * nin))):.3g}'))
                 else:
                     viol.append(('noise:wrong-gain', f'noise in the rows present differs from sqrt(G)*input.noise by {float(np.max(np.abs(Z0[rows] - g * nin))):.3g}'))
@@ -292,16 +449,21 @@ def case_scripted(case):
                     viol.append(('noise:duplicated-into-y:1pol', f'1-pol input: its noise appears in the y-row too (max {float(np.max(np.abs(Z0[1]))):.3g}), expected 0'))
                 else:
                     viol.append(('noise:y-row-nonzero:1pol', f'1-pol input, zero ASE answer: y-row of the noise max {float(np.max(np.abs(Z0[1]))):.3g}, expected 0'))
-        return res(viol, obs=(canon(y), repr(reqs)), nontrivial=nt, stats=stats)
+        return viol, (canon(y), repr(reqs)), nt
 
     # ---------------- ASE clause: L(answer) = noise(answer) - noise(0)
     def ase_of(yy):
         return noise_of(yy, N) - Z0
 
+    if P == 0 and not np.array_equal(noise_of(y, N), Z0):
+        # G = 0 dB: (G-1) = 0 exactly, the documented ASE power is exactly 0 whatever is drawn
+        viol.append(('ase:nonzero-at-P_ase=0', f'G={Gv:g} dB: documented ASE power is exactly 0 but the output noise depends on the draw '
+                     f'(max dev {float(np.max(np.abs(ase_of(y)))):.3g})'))
+
     def elem_err(*ys):
         # rounding of the library's `g*n + ase` and of my subtraction
         m = max([float(np.max(np.abs(Z0)))] + [float(np.max(np.abs(noise_of(q, N)))) for q in ys])
-        return 4 * EPS * m + 8 * EPS * amp
+        return 4 * eps_n * m + 8 * eps_p * amp
 
     units = []
     for r in range(4):
@@ -311,7 +473,7 @@ def case_scripted(case):
         stu, yu, _ = call(unit_answer(N, r), None)
         if stu == 'exc' or structure(yu, N):
             viol.append(('ase:unit-answer-fails', f'EDFA fails under unit answer row {r}: {yu!r}'))
-            return res(viol, obs=('EXC-U', r), nontrivial=nt, stats=stats)
+            return viol, ('EXC-U', r), nt
         units.append(yu)
     V = [vec32(ase_of(q)) for q in units]           # responses to "row r all ones"
     e = elem_err(*units)
@@ -319,7 +481,7 @@ def case_scripted(case):
     def gram_tol(na, nb):
         # <u+du, v+dv> - <u,v>, |du|,|dv| <= sqrt(4N)*e ; plus rounding of P itself (a few ulp)
         n = math.sqrt(4 * N) * e
-        return 2 * (na * n + nb * n + n * n) + 32 * EPS * (P / 4) * N
+        return 2 * (na * n + nb * n + n * n) + 32 * eps_p * (P / 4) * N
 
     if akind.startswith('u'):
         r = int(akind[1])
@@ -327,26 +489,26 @@ def case_scripted(case):
         for s in range(4):
             gk = float(V[r] @ V[s])
             wantg = P / 4 * N if s == r else 0.0
-            if abs(gk - wantg) > gram_tol(nr, nr):
+            if not abs(gk - wantg) <= gram_tol(nr, nr):
                 if s == r:
                     viol.append(('ase:power', f'ASE response to answer row {r} (all ones) has energy {gk:.6g}, expected (P_ase/4)*N = {wantg:.6g} '
-                                 f'(P_ase={P:.6g} W, G={G} dB, NF={NF} dB)'))
+                                 f'(P_ase={P:.6g} W, G={Gv:g} dB, NF={NFv:g} dB)'))
                 else:
                     viol.append(('ase:components-not-independent', f'ASE responses to answer rows {r} and {s} are not orthogonal: <.,.>={gk:.3g} (P_ase/4*N={P / 4 * N:.3g})'))
         # documented placement (observation only): x = row0 + j row2, y = row1 + j row3
         doc = np.zeros((2, N), complex)
         doc[r % 2] = amp * (1.0 if r < 2 else 1j)
-        if np.all(np.abs(ase_of(y) - doc) <= e + 8 * EPS * amp):
+        if np.all(np.abs(ase_of(y) - doc) <= e + 8 * eps_p * amp):
             stats['placement_as_documented'] = 1
         else:
             stats['placement_other_isometry_or_wrong'] = 1
-        return res(viol, obs=(canon(y), repr(reqs)), nontrivial=nt, stats=stats)
+        return viol, (canon(y), repr(reqs)), nt
 
     # seeded answer a and its mirror -a
     stn, yn, reqsn = call(-ans, None)
     if stn == 'exc' or structure(yn, N):
         viol.append(('ase:mirror-answer-fails', f'EDFA fails under the mirrored seeded answer: {yn!r}'))
-        return res(viol, obs=('EXC-M',), nontrivial=nt, stats=stats)
+        return viol, ('EXC-M',), nt
     e = elem_err(y, yn, *units)
     La, Lm = ase_of(y), ase_of(yn)
     if not np.all(np.abs(La + Lm) <= 2 * e):
@@ -354,13 +516,13 @@ def case_scripted(case):
     ea = float(np.sum(np.abs(La) ** 2))
     wantE = P / 4 * float(np.sum(ans ** 2))
     na = math.sqrt(wantE)
-    if abs(ea - wantE) > gram_tol(na, na) * 2:
-        viol.append(('ase:power', f'ASE energy under the seeded answer {ea:.6g}, expected (P_ase/4)*|a|^2 = {wantE:.6g} (P_ase={P:.6g} W, G={G} dB, NF={NF} dB)'))
+    if not abs(ea - wantE) <= gram_tol(na, na) * 2:
+        viol.append(('ase:power', f'ASE energy under the seeded answer {ea:.6g}, expected (P_ase/4)*|a|^2 = {wantE:.6g} (P_ase={P:.6g} W, G={Gv:g} dB, NF={NFv:g} dB)'))
     # per-sample superposition of the unit responses (draw (r,k) acts on sample k with the coefficient measured by row r)
     Vc = [ase_of(q) for q in units]
     sup = sum(ans[r][None, :] * Vc[r] for r in range(4))
     amax = float(np.max(np.abs(ans)))
-    if np.all(np.abs(La - sup) <= (1 + 4 * amax) * e + 16 * EPS * amp * amax):
+    if np.all(np.abs(La - sup) <= (1 + 4 * amax) * e + 16 * eps_p * amp * amax):
         stats['ase_sample_diagonal'] = 1
     else:
         stats['ase_mixes_samples'] = 1      # still an isometry is acceptable; decided completely in part ase-basis
@@ -368,20 +530,79 @@ def case_scripted(case):
     if nonzero_noise:
         nin = noi
         Ps_in, Pn_in = float(np.sum(np.abs(sig) ** 2)), float(np.sum(np.abs(nin) ** 2))
-        Ps_out = float(np.sum(np.abs(np.asarray(y.signal)) ** 2))
+        Ps_out = float(np.sum(np.abs(wide(y.signal)) ** 2))
         Pn_out = 0.5 * (float(np.sum(np.abs(noise_of(y, N)) ** 2)) + float(np.sum(np.abs(noise_of(yn, N)) ** 2)))
-        # OSNR_out <= OSNR_in  <=>  Ps_out*Pn_in <= Ps_in*Pn_out ; sums of <= 2N squares: relative rounding <= 4N*eps each
+        # OSNR_out <= OSNR_in  <=>  Ps_out*Pn_in <= Ps_in*Pn_out ; sums of <= 2N squares: relative rounding <= 4N*eps each;
+        # plus the working precision of the two gains (signal and noise path) where that is not double
         lhs, rhs = Ps_out * Pn_in, Ps_in * Pn_out
-        if lhs > rhs * (1 + 64 * N * EPS):
-            viol.append(('osnr:increased', f'OSNR_out/OSNR_in = {lhs / rhs:.6g} > 1 (G={G} dB, NF={NF} dB): the amplifier improves the optical SNR'))
-    return res(viol, obs=(canon(y), canon(yn), repr(reqs)), nontrivial=nt, stats=stats)
+        if lhs > rhs * (1 + 64 * N * EPS + 32 * ((eps_s if eps_s > EPS else 0) + (eps_n if eps_n > EPS else 0))):
+            viol.append(('osnr:increased', f'OSNR_out/OSNR_in = {lhs / rhs:.6g} > 1 (G={Gv:g} dB, NF={NFv:g} dB): the amplifier improves the optical SNR'))
+    return viol, (canon(y), canon(yn), repr(reqs)), nt
 
 
-# ------------------------------------------------------------------ part: ase-basis (complete linear map for N = 8)
+# ------------------------------------------------------------------ parts: scripted (full product) and lattice (<= 2 deviations)
+def case_scripted(case):
+    N, layout, nkind, G, NF, wl, fs, bwspec, akind, seed = case[:10]
+    opts = case[10] if len(case) > 10 else ()
+    cfg = (N, layout, nkind, G, NF, wl, fs, seed)
+    stats = {'edfa_calls': 0}
+    fs_, f0_ = set_grid(wl, fs, opts)
+    _, sig, noi, npol = make_input(N, layout, nkind, seed, opts)
+
+    def call(a, bw):
+        return call_edfa(cfg, a, None if bw is None else bwspec, opts, stats)
+
+    viol, obs, nt = check_scripted(call, sig, noi, npol, N, nkind, G, NF, fs_, f0_, bw_arg(bwspec, fs_), akind, seed, stats)
+    return res(viol, obs=obs, nontrivial=nt, stats=stats)
+
+
+# ------------------------------------------------------------------ part: sequence (ONE shared input object, ambient gv)
+def case_sequence(case):
+    """steps = ((gvspec | None, clean?, G, NF, BW/fs | None, feed the output to the next step?), ...).
+    Every step is decided by the complete scripted oracle (seeded answer: zero twin, four unit rows, a and -a = 7..8 calls on the
+    SAME object) against the content of the object and gv.fs / gv.f0 as they are right before the step."""
+    name, N, layout, nkind, seed, frozen, steps = case
+    from opticomlib.typing import gv
+    stats = {'edfa_calls': 0}
+    set_grid(1550e-9, 16e9)
+    x, _, _, _ = make_input(N, layout, nkind, seed)
+    viol, obs = [], []
+    for i, (spec, clean, G, NF, bwf, feed) in enumerate(steps):
+        if spec is not None:
+            if clean:
+                gv_reset(**dict(spec))
+            else:
+                import warnings
+                with warnings.catch_warnings():
+                    warnings.simplefilter('ignore')
+                    gv(**dict(spec))
+        fs_, f0_ = float(gv.fs), float(gv.f0)
+        if frozen:
+            for a in (x.signal, x.noise):
+                if a is not None:
+                    a.flags.writeable = False
+        sig, noi, npol = np.array(x.signal), None if x.noise is None else np.array(x.noise), x.n_pol
+
+        def call(a, bw, x=x, G=G, NF=NF):
+            return run_edfa(x, G, NF, bw, a, N, 'pos', stats)
+
+        v, o, _ = check_scripted(call, sig, noi, npol, N, nkind, G, NF, fs_, f0_, None if bwf is None else bwf * fs_, 'seeded', seed, stats)
+        viol += [(k, f'step {i} of {name}: {m}') for k, m in v]
+        obs.append(o)
+        if feed:
+            st, y, _ = run_edfa(x, G, NF, None if bwf is None else bwf * fs_, seeded_answer(N, seed + 1 + i), N, 'pos', stats)
+            if st == 'exc' or structure(y, N):
+                viol.append(('seq:stage-fails', f'step {i} of {name}: EDFA fails: {y!r}'))
+                break
+            x = y
+    return res(viol, obs=tuple(obs), nontrivial=(name, N, layout, nkind), stats=stats)
+
+
+# ------------------------------------------------------------------ part: ase-basis (complete linear map for N = 8 and N = 1, 2, 3)
 def case_basis(case):
     N, layout, nkind, G, NF, wl, fs, seed = case
     cfg = case
-    P = p_ase(G, NF, wl, fs)
+    P = p_ase(G, NF, C0 / wl, fs)
     amp = math.sqrt(P / 4)
     viol, stats = [], {'edfa_calls': 0}
     st, y0, _ = call_edfa(cfg, None, None)
@@ -429,27 +650,55 @@ def case_basis(case):
 
 
 # ------------------------------------------------------------------ part: non-optical
-BAD_KINDS = ['ndarray-1d', 'ndarray-2d', 'electrical_signal', 'binary_sequence', 'list', 'tuple', 'None', 'float', 'int', 'complex', 'str', 'dict']
+BAD_KINDS = ['ndarray-1d', 'ndarray-2d', 'electrical_signal', 'binary_sequence', 'list', 'tuple', 'None', 'float', 'int', 'complex', 'str', 'dict',
+             # hardening pass: invalid in exactly one way / containing a valid token
+             'electrical_signal-noise-free', 'list-of-optical', 'tuple-of-optical', 'dict-of-optical', 'object-array-of-optical', 'optical-class',
+             'duck-typed', 'bool', 'np.float64', 'np.complex128-0d', 'bytes', 'gv']
+
+
+class _Duck:
+    """looks like an optical_signal (same attributes and methods) but is none"""
+
+    def __init__(self, N):
+        self.signal, self.noise, self.n_pol, self.execution_time = np.ones(N, complex), np.ones(N, complex) * 0.1, 1, 0.0
+
+    def len(self):
+        return self.signal.shape[-1]
+
+    def __getitem__(self, s):
+        return self
+
+    def __mul__(self, o):
+        return self
 
 
 def make_bad(kind, N):
-    from opticomlib.typing import electrical_signal, binary_sequence
+    from opticomlib.typing import electrical_signal, binary_sequence, optical_signal, gv
+    ok = lambda: optical_signal(np.ones(N, complex), np.ones(N, complex) * 0.1)
     return {'ndarray-1d': lambda: np.ones(N, complex), 'ndarray-2d': lambda: np.ones((2, N), complex),
             'electrical_signal': lambda: electrical_signal(np.ones(N, complex), np.ones(N, complex) * 0.1),
             'binary_sequence': lambda: binary_sequence([1, 0] * (N // 2)), 'list': lambda: [1.0] * N,
             'tuple': lambda: (1.0,) * N, 'None': lambda: None, 'float': lambda: 1.0, 'int': lambda: 1,
-            'complex': lambda: 1 + 1j, 'str': lambda: '1 2 3 4', 'dict': lambda: {'signal': [1, 2]}}[kind]()
+            'complex': lambda: 1 + 1j, 'str': lambda: '1 2 3 4', 'dict': lambda: {'signal': [1, 2]},
+            'electrical_signal-noise-free': lambda: electrical_signal(np.ones(N)), 'list-of-optical': lambda: [ok()],
+            'tuple-of-optical': lambda: (ok(),), 'dict-of-optical': lambda: {'input': ok()},
+            'object-array-of-optical': lambda: np.array(ok(), dtype=object), 'optical-class': lambda: optical_signal,
+            'duck-typed': lambda: _Duck(N), 'bool': lambda: True, 'np.float64': lambda: np.float64(1.0),
+            'np.complex128-0d': lambda: np.array(1 + 1j), 'bytes': lambda: b'1 0 1 1', 'gv': lambda: gv}[kind]()
 
 
 def case_bad(case):
-    kind, N, G, NF, wl, fs, bwf = case
+    kind, N, G, NF, wl, fs, bwf, form = case
     from opticomlib.devices import EDFA
     gv_reset(fs=fs, wavelength=wl)
     x = make_bad(kind, N)
     rng = ScriptedRNG(lambda k, i: None)
     try:
         with scripted_rng(rng):
-            y = EDFA(x, G, NF) if bwf is None else EDFA(x, G, NF, bwf * fs)
+            if form == 'kw':
+                y = EDFA(input=x, G=G, NF=NF) if bwf is None else EDFA(input=x, G=G, NF=NF, BW=bwf * fs)
+            else:
+                y = EDFA(x, G, NF) if bwf is None else EDFA(x, G, NF, bwf * fs)
     except TypeError:
         return res([], obs=('TypeError', kind), nontrivial=kind)
     except Unscripted:
@@ -461,21 +710,54 @@ def case_bad(case):
 
 
 # ------------------------------------------------------------------ part: conformance (real RNG)
+SIX = 6.0
+CNAMES = ['Re x', 'Im x', 'Re y', 'Im y']
+
+
+def component_stats(C, v, lags=(1,)):
+    """six-sigma bands for four records C[i] (n samples each) that should be i.i.d. N(0, v) and mutually independent"""
+    viol = []
+    n = len(C[0])
+    for i in range(4):
+        vi = float(np.mean(C[i] ** 2))
+        if not abs(vi / v - 1) <= SIX * math.sqrt(2 / n):
+            viol.append(('conf:component-variance', f'{CNAMES[i]}: variance/(P_ase/4) = {vi / v:.5f}, band +-{SIX * math.sqrt(2 / n):.5f}'))
+        mi = float(np.mean(C[i]))
+        if not abs(mi) <= SIX * math.sqrt(v / n):
+            viol.append(('conf:component-mean', f'{CNAMES[i]}: mean {mi:.3g} beyond six sigma {SIX * math.sqrt(v / n):.3g}'))
+        # sample kurtosis m4/m2^2 of a normal sample: mean 3, variance 24/N (normalised by the SAMPLE variance,
+        # so that a wrong power is reported under its own key only)
+        k4 = float(np.mean(C[i] ** 4)) / (3 * vi * vi) if vi > 0 else float('inf')
+        if not abs(k4 - 1) <= SIX * math.sqrt(24 / n) / 3:
+            viol.append(('conf:not-gaussian-4th-moment', f'{CNAMES[i]}: m4/(3 m2^2) = {k4:.4f}, band +-{SIX * math.sqrt(24 / n) / 3:.4f}'))
+        for lag in lags:
+            if lag >= n:
+                continue
+            l1 = float(np.mean(C[i][lag:] * C[i][:-lag])) / v
+            if not abs(l1) <= SIX / math.sqrt(n - lag):
+                viol.append(('conf:samples-correlated', f'{CNAMES[i]}: lag-{lag} correlation {l1:.4f}, band +-{SIX / math.sqrt(n - lag):.4f}'))
+        for j in range(i + 1, 4):
+            cij = float(np.mean(C[i] * C[j])) / v
+            if not abs(cij) <= SIX / math.sqrt(n):
+                viol.append(('conf:components-correlated', f'{CNAMES[i]} / {CNAMES[j]}: correlation {cij:.4f}, band +-{SIX / math.sqrt(n):.4f}'))
+    return viol
+
+
 def case_conf(case):
     N, layout, nkind, G, NF, wl, fs, seed, rseed = case
     from opticomlib.devices import EDFA
-    cfg = (N, layout, nkind, G, NF, wl, fs, seed)
-    g, P = gain(G), p_ase(G, NF, wl, fs)
+    Gv, NFv = val(G), val(NF)
+    g, P = gain(Gv), p_ase(Gv, NFv, C0 / wl, fs)
     viol = []
     npol = 1 if layout == '1pol' else 2
 
     def run(kind, reseed=True):
         gv_reset(fs=fs, wavelength=wl)
-        x, s, n, _ = build_input(N, layout, kind, seed)
+        x, s, n, _ = make_input(N, layout, kind, seed)
         if reseed:
             np.random.seed(rseed)
         try:
-            return EDFA(x, G, NF), s, n
+            return EDFA(x, arg(G), arg(NF)), s, n
         except Exception as e:
             return e, s, n
 
@@ -483,48 +765,33 @@ def case_conf(case):
     if isinstance(y, Exception):
         return res([exc_key(y, 'absent')], obs='EXC', nontrivial=True)
     sv = structure(y, N)
-    if sv or y.noise is None:
+    if sv or (y.noise is None and P > 0):
         return res(sv or [('conf:no-noise', 'noise-free input, G > 0 dB: output carries no ASE')], obs='STRUCT', nontrivial=True)
-    A = np.asarray(y.noise)
-    C = [A[0].real, A[0].imag, A[1].real, A[1].imag]
-    names = ['Re x', 'Im x', 'Re y', 'Im y']
+    A = noise_of(y, N)
     v = P / 4
-    six = 6.0
-    # total power: (P/4)*chi2(4N)/N  ->  sd = P/sqrt(2N)
-    Ptot = float(np.mean(np.abs(A[0]) ** 2 + np.abs(A[1]) ** 2))
-    if abs(Ptot / P - 1) > six / math.sqrt(2 * N):
-        viol.append(('conf:ase-power', f'sample ASE power {Ptot:.6g} W vs NF*h*f0*(G-1)*fs = {P:.6g} W: ratio {Ptot / P:.5f}, six-sigma band +-{six / math.sqrt(2 * N):.5f}'))
-    for i in range(4):
-        vi = float(np.mean(C[i] ** 2))
-        if abs(vi / v - 1) > six * math.sqrt(2 / N):
-            viol.append(('conf:component-variance', f'{names[i]}: variance/(P_ase/4) = {vi / v:.5f}, band +-{six * math.sqrt(2 / N):.5f}'))
-        mi = float(np.mean(C[i]))
-        if abs(mi) > six * math.sqrt(v / N):
-            viol.append(('conf:component-mean', f'{names[i]}: mean {mi:.3g} beyond six sigma {six * math.sqrt(v / N):.3g}'))
-        # sample kurtosis m4/m2^2 of a normal sample: mean 3, variance 24/N (normalised by the SAMPLE variance,
-        # so that a wrong power is reported under its own key only)
-        k4 = float(np.mean(C[i] ** 4)) / (3 * vi * vi) if vi > 0 else float('inf')
-        if abs(k4 - 1) > six * math.sqrt(24 / N) / 3:
-            viol.append(('conf:not-gaussian-4th-moment', f'{names[i]}: m4/(3 m2^2) = {k4:.4f}, band +-{six * math.sqrt(24 / N) / 3:.4f}'))
-        l1 = float(np.mean(C[i][1:] * C[i][:-1])) / v
-        if abs(l1) > six / math.sqrt(N - 1):
-            viol.append(('conf:samples-correlated', f'{names[i]}: lag-1 correlation {l1:.4f}, band +-{six / math.sqrt(N - 1):.4f}'))
-        for j in range(i + 1, 4):
-            cij = float(np.mean(C[i] * C[j])) / v
-            if abs(cij) > six / math.sqrt(N):
-                viol.append(('conf:components-correlated', f'{names[i]} / {names[j]}: correlation {cij:.4f}, band +-{six / math.sqrt(N):.4f}'))
-    # freshly drawn: a second call without reseeding gives another, uncorrelated realisation; reseeding reproduces the first
-    y2, _, _ = run('absent', reseed=False)
-    y3, _, _ = run('absent')
-    if isinstance(y2, Exception) or isinstance(y3, Exception) or y2.noise is None or y3.noise is None:
-        viol.append(('conf:second-call-fails', 'second call failed'))
+    six = SIX
+    if P == 0:
+        # G = 0 dB, the documented lower limit: (G-1) = 0 exactly -> no ASE at all, whatever the generator draws
+        if np.any(A != 0):
+            viol.append(('ase:nonzero-at-P_ase=0', f'G={Gv:g} dB: documented ASE power is exactly 0 but the output noise has max {float(np.max(np.abs(A))):.3g} (real-RNG run)'))
     else:
-        B = np.asarray(y2.noise)
-        cc = float(np.mean((A * np.conj(B)).real)) / (2 * v)
-        if np.array_equal(A, B) or abs(cc) > six / math.sqrt(2 * N) * math.sqrt(2):
-            viol.append(('conf:not-freshly-drawn', f'two successive calls give correlated ASE (corr {cc:.4f})'))
-        if not np.array_equal(A, np.asarray(y3.noise)):
-            viol.append(('conf:not-from-global-rng', 'np.random.seed(s) does not reproduce the ASE realisation'))
+        # total power: (P/4)*chi2(4N)/N  ->  sd = P/sqrt(2N)
+        Ptot = float(np.mean(np.abs(A[0]) ** 2 + np.abs(A[1]) ** 2))
+        if not abs(Ptot / P - 1) <= six / math.sqrt(2 * N):
+            viol.append(('conf:ase-power', f'sample ASE power {Ptot:.6g} W vs NF*h*f0*(G-1)*fs = {P:.6g} W: ratio {Ptot / P:.5f}, six-sigma band +-{six / math.sqrt(2 * N):.5f}'))
+        viol += component_stats([A[0].real, A[0].imag, A[1].real, A[1].imag], v)
+        # freshly drawn: a second call without reseeding gives another, uncorrelated realisation; reseeding reproduces the first
+        y2, _, _ = run('absent', reseed=False)
+        y3, _, _ = run('absent')
+        if isinstance(y2, Exception) or isinstance(y3, Exception) or y2.noise is None or y3.noise is None:
+            viol.append(('conf:second-call-fails', 'second call failed'))
+        else:
+            B = np.asarray(y2.noise)
+            cc = float(np.mean((A * np.conj(B)).real)) / (2 * v)
+            if np.array_equal(A, B) or not abs(cc) <= six / math.sqrt(2 * N) * math.sqrt(2):
+                viol.append(('conf:not-freshly-drawn', f'two successive calls give correlated ASE (corr {cc:.4f})'))
+            if not np.array_equal(A, np.asarray(y3.noise)):
+                viol.append(('conf:not-from-global-rng', 'np.random.seed(s) does not reproduce the ASE realisation'))
     # signal gain
     S = np.asarray(y.signal)
     if not near(S[:npol], g * (sig if npol == 2 else sig[None, :])):
@@ -538,7 +805,7 @@ def case_conf(case):
         if isinstance(yn, Exception):
             viol.append(exc_key(yn, nkind))
         elif structure(yn, N) or yn.noise is None:
-            viol.append(('shape:not-2pol', 'noisy twin: bad structure'))
+            viol.append((structure(yn, N) or [('shape:not-2pol', 'noisy twin: bad structure')])[0])
         else:
             Dn = np.asarray(yn.noise) - A
             nin = noi if npol == 2 else noi[None, :]
@@ -552,6 +819,151 @@ def case_conf(case):
                 viol.append(('noise:duplicated-into-y:1pol', 'real-RNG twin: 1-pol input, its noise appears in the y-row'))
             obs_extra = canon(yn)
     return res(viol, obs=(canon(y), obs_extra), nontrivial=True, stats={'edfa_calls': 3 + (nkind != 'absent')})
+
+
+# ------------------------------------------------------------------ part: fluct (real RNG, very short records, repeated calls)
+def case_fluct(case):
+    """K successive calls on ONE shared input object under the real generator (seeded once).  'freshly drawn, mutually independent
+    Gaussian' => the realised ASE power T of one call is (P/4N) chi2(4N): mean P, variance P^2/(2N); it is NOT a constant.
+    Six-sigma bands over K*N >= 2^16 samples."""
+    N, K, layout, nkind, G, NF, wl, fs, seed, rseed = case
+    from opticomlib.devices import EDFA
+    from scipy.stats import chi2
+    Gv, NFv = val(G), val(NF)
+    g, P = gain(Gv), p_ase(Gv, NFv, C0 / wl, fs)
+    gv_reset(fs=fs, wavelength=wl)
+    x, sig, noi, npol = make_input(N, layout, nkind, seed)
+    np.random.seed(rseed)
+    A = np.zeros((K, 2, N), complex)
+    viol = []
+    for i in range(K):
+        y = EDFA(x, arg(G), arg(NF))
+        if i == 0:
+            sv = structure(y, N)
+            if sv or y.noise is None:
+                return res(sv or [('conf:no-noise', 'G > 0 dB: output carries no ASE')], obs='STRUCT', nontrivial=True)
+        A[i] = y.noise
+    if not np.all(np.isfinite(A)):
+        return res([('nonfinite:noise', f'{int(np.sum(~np.isfinite(A)))} non-finite noise samples in {K} calls')], obs='NONFINITE', nontrivial=True)
+    if noi is not None:            # remove the amplified incoming noise (rounding 4 eps |g n| << ASE amplitude)
+        A[:, :npol, :] -= g * (wide(noi) if npol == 2 else wide(noi)[None, :])
+    d = 4 * N
+    T = np.sum(np.abs(A) ** 2, axis=(1, 2)) / N / P            # realised power of each call / nominal
+    m = float(np.mean(T))
+    if not abs(m - 1) <= SIX / math.sqrt(2 * N * K):
+        viol.append(('conf:ase-power', f'mean realised ASE power / nominal over {K} calls of {N} sample(s) = {m:.5f}, six-sigma band +-{SIX / math.sqrt(2 * N * K):.5f}'))
+    # spread of the realised power around the nominal one: E (T-1)^2 = 2/d ; its estimator over K calls has the relative
+    # standard deviation sqrt((mu4 - sigma^4)/K)/sigma^2 = sqrt((2 + 12/d)/K)   (chi2_d/d: mu4 = 12(d+4)/d^3, sigma^2 = 2/d)
+    spread = float(np.mean((T - 1) ** 2)) / (2 / d)
+    band = SIX * math.sqrt((2 + 12 / d) / K)
+    if spread < 1e-6:
+        viol.append(('conf:realised-power-does-not-fluctuate', f'the ASE power realised in a record of {N} sample(s) is the same in all {K} calls '
+                     f'(relative spread {math.sqrt(spread * 2 / d):.3g}); independent Gaussian samples give {math.sqrt(2 / d):.3f}'))
+    elif not abs(spread - 1) <= band:
+        viol.append(('conf:realised-power-spread', f'variance of the realised ASE power over {K} calls of {N} sample(s) is {spread:.4f} x (P^2/2N), band +-{band:.4f}'))
+    # how often a call realises more than twice the nominal power: chi2_d > 2d
+    p2 = float(chi2.sf(2 * d, d))
+    f2 = float(np.mean(T > 2))
+    if not abs(f2 - p2) <= SIX * math.sqrt(p2 * (1 - p2) / K):
+        viol.append(('conf:realised-power-tail', f'fraction of calls with realised ASE power > 2 P_ase: {f2:.5f}, chi2({d}) gives {p2:.5f} +- {SIX * math.sqrt(p2 * (1 - p2) / K):.5f}'))
+    # pooled record (all calls one after the other): i.i.d. N(0, P/4) in the four components, within a call and from call to call
+    C = [A[:, 0, :].real.ravel(), A[:, 0, :].imag.ravel(), A[:, 1, :].real.ravel(), A[:, 1, :].imag.ravel()]
+    viol += component_stats(C, P / 4, lags=(1, N) if N > 1 else (1,))
+    if snapshot(x) != [None if a is None else (a.dtype.str, a.shape, a.tobytes()) for a in (sig, noi)]:
+        stats_changed = 1
+    else:
+        stats_changed = 0
+    return res(viol, obs=A.tobytes(), nontrivial=True, stats={'edfa_calls': K, 'input_object_changed': stats_changed})
+
+
+# ------------------------------------------------------------------ the extended alphabets of the hardening pass
+UP = float(np.nextafter(1.0, 0.0))      # the double just below 1
+
+
+def lattice_axes(quick):
+    """name -> members that DEVIATE from the base point (N=16, 1pol, complex noise, G=3 (int), NF=3 (int), gv(fs=16e9) at 1550 nm,
+    no BW, scale 1, positional call, writable ndarray-built input).  Simplest first."""
+    ax = {}
+    ax['N'] = [1, 2, 3, 8, 13, 17, 127, 1025] if quick else [1, 2, 3, 4, 5, 8, 13, 15, 17, 64, 97, 127, 1023, 1024, 1025, 4096, 4097]
+    ax['layout'] = ['2pol', '2pol-empty-y', '2pol-empty-x', '2pol-dark', '2pol-noise-x-only', '2pol-noise-y-only', 'cascade']
+    ax['nkind'] = (['absent', 'zero', 'real', 'absent-realsig', 'int', 'absent-intsig', 'intfloat', 'zero-sum']
+                   + DTYPE_KINDS + [f'absent-{d}sig' for d in DTYPE_KINDS]
+                   + ['mixed:complex128/float64', 'mixed:complex128/float32', 'mixed:complex128/int8', 'mixed:float64/int64',
+                      'mixed:float64/complex128', 'mixed:float32/complex128', 'mixed:int64/float64', 'mixed:complex64/complex128'])
+    # G in [0, 40] dB: both limits exactly, one ulp inside, as int / float / numpy scalar / 0-d array; non-integer values
+    ax['G'] = [0, 20, 40, 0.0, 3.0, 40.0, 5e-324, float(np.nextafter(40.0, 0.0)), 2.5, 17.3,
+               ('np.int64', 0), ('np.int64', 40), ('np.int32', 3), ('np.float64', 0.0), ('np.float64', 40.0),
+               ('np.float32', 0), ('np.float32', 3), ('np.float32', 40), ('np.float16', 20), ('0d', 0), ('0d', 3.0), ('0d', 40)]
+    # NF in [3, 10] dB likewise (the base value 3 is the lower limit as an int)
+    ax['NF'] = [5, 10, 3.0, 10.0, float(np.nextafter(3.0, 4.0)), float(np.nextafter(10.0, 0.0)), 4.77,
+                ('np.int64', 3), ('np.int64', 10), ('np.float64', 3.0), ('np.float64', 10.0), ('np.float32', 3), ('np.float32', 10),
+                ('np.float16', 10), ('0d', 3), ('0d', 10.0)]
+    # every documented way to configure the grid, integer and non-integer fs / R, other wavelengths, N set
+    ax['gv'] = [(('fs', 16e9), ('wavelength', 1310e-9)), (('fs', 160e9),), (('sps', 16), ('R', 1e9)), (('sps', 8), ('fs', 20e9)),
+                (('R', 2.5e9), ('fs', 40e9)), (('R', 3e9), ('fs', 40e9)), (('sps', 16), ('R', 1e9 / 3)), (('fs', 1e11 / 7),),
+                (('fs', 16e9), ('wavelength', 850e-9)), (('sps', 16), ('R', 1e9), ('wavelength', 1625e-9), ('N', 64)),
+                (('fs', 16e9), ('N', 128)), (('sps', 4), ('R', 10e9), ('wavelength', 1310e-9)), (('fs', 16000000000),),
+                (('sps', 16), ('R', 1e9), ('wavelength', 1550e-9), ('G', 20), ('NF', 5), ('BW', 50e9))]
+    # optical bandwidth from very narrow to one ulp below fs (low-pass equivalent cut-off BW/2 < Nyquist), every scalar spelling
+    ax['BW'] = [0.2, 0.6, 0.001, 0.01, 0.05, 0.5, 0.9, 0.99, UP, ('int', 0.2), ('np.int64', 0.6), ('np.float64', 0.2), ('np.float32', 0.25)]
+    ax['scale'] = [1e-12, 1e-9, 1e-6, 1e6, 'dc']
+    ax['call'] = ['kw', 'kw-mixed']
+    ax['frozen'] = [True]
+    ax['ctor'] = ['list', 'slice', 'copy']
+    return ax
+
+
+LATTICE_BASE = {'N': 16, 'layout': '1pol', 'nkind': 'complex', 'G': 3, 'NF': 3, 'gv': None, 'BW': None,
+                'scale': 1, 'call': 'pos', 'frozen': False, 'ctor': 'ndarray'}
+
+
+def legal(d):
+    """combinations that are not inputs at all are left out"""
+    sd, nd, _, _ = kind_dtypes(d['nkind'])
+    if d['scale'] != 1 and (sd in INT_DT or nd in INT_DT or sd == 'intfloat' or 'float16' in (sd, nd)):
+        return False            # a scale factor is meaningless for integer levels and under/overflows float16
+    return True
+
+
+def lattice_cases(quick, seed, k=2):
+    ax = lattice_axes(quick)
+    names = list(ax)
+    out = []
+    for r in range(k + 1):
+        for combo in itertools.combinations(names, r):
+            for vals in itertools.product(*[ax[n] for n in combo]):
+                d = dict(LATTICE_BASE)
+                d.update(zip(combo, vals))
+                if not legal(d):
+                    continue
+                opts = tuple(sorted((n, d[n]) for n in ('gv', 'scale', 'call', 'frozen', 'ctor') if d[n] != LATTICE_BASE[n]))
+                wl, fs = (1550e-9, 16e9) if d['gv'] is None else (None, None)
+                for ak in ANSWERS:
+                    out.append((d['N'], d['layout'], d['nkind'], d['G'], d['NF'], wl, fs, d['BW'], ak, seed, opts))
+    return out
+
+
+def sequence_cases(quick, seed):
+    """call sequences on ONE shared input object"""
+    S = [(('fs', 16e9),), (('fs', 16e9), ('wavelength', 1310e-9)), (('fs', 160e9), ('wavelength', 1550e-9)),
+         (('sps', 8), ('R', 2.5e9), ('wavelength', 850e-9)), (('sps', 16), ('R', 1e9), ('N', 32)), (('R', 3e9), ('fs', 40e9), ('wavelength', 1625e-9))]
+    inputs = [(16, '1pol', 'complex'), (16, '2pol-empty-y', 'complex')] + ([] if quick else [(16, '1pol', 'absent'), (17, '2pol', 'int'), (2, '2pol', 'complex')])
+    out = []
+    # grid switches g1, g2, g1 (every ordered pair, incl. g1 = g2: the plain repeated call), reconfigured with and without gv.clean()
+    for (N, lay, nk), (G, NF) in itertools.product(inputs, [(3, 3), (40, 10)] if quick else [(3, 3), (20, 5), (40, 10)]):
+        for a, b in itertools.product(range(len(S)), repeat=2):
+            for clean in (False, True):
+                steps = tuple((S[i], clean, G, NF, None, False) for i in (a, b, a))
+                out.append((f'gv-switch:{a},{b},{a}:{"clean" if clean else "reconf"}', N, lay, nk, seed, False, steps))
+    # sweeps of one parameter on the shared object (G over the whole range incl. both limits, NF, BW), writable and write-protected
+    sweeps = {'sweep-G': [(None, False, G, 5, None, False) for G in (0, 3, 0.0, 40, ('np.float32', 10), 20, 0, 40.0)],
+              'sweep-NF': [(None, False, 20, NF, None, False) for NF in (3, 10, 3.0, ('np.int64', 5), 10.0, 3)],
+              'sweep-BW': [(None, False, 20, 5, bw, False) for bw in (None, 0.2, 0.9, 0.01, None, UP, 0.5)],
+              # EDFA chains: the output of one amplifier (2-pol, dark but noisy y for a 1-pol source) is the input of the next
+              'chain': [(None, False, G, NF, bw, True) for G, NF, bw in ((10, 5, None), (0, 3, None), (3, 10, 0.6), (40, 3, None), (20, 7, 0.2))]}
+    for (N, lay, nk), (name, steps), frozen in itertools.product(inputs, sweeps.items(), (False, True)):
+        out.append((name + (':frozen' if frozen else ''), N, lay, nk, seed, frozen, tuple(steps)))
+    return out
 
 
 # ------------------------------------------------------------------ driver
@@ -575,13 +987,21 @@ def run(ctx):
         conf_seeds = [1, 2, 3, 4]
         confN = 2 ** 17
     gvs = [(w, f) for w in WL for f in FS]
+    ax = lattice_axes(ctx.quick)
     ctx.rule(f'scripted: FULL product N{Ns} x layout{LAYOUTS} x noise-kind{NKINDS} x G{Gs} dB x NF{NFs} dB x wavelength{WL} x fs{FS} x BW/fs{BWs} '
              f'x RNG answer{ANSWERS} (unit cases execute all four unit rows, the seeded case executes +a and -a); simplest first; '
-             f'ase-basis: all 32 impulse answers for N=8 over layout x noise{{absent,complex}} x G x NF x gv; non-optical: {len(BAD_KINDS)} input classes x BW; '
-             f'conformance: numpy global RNG reseeded with {conf_seeds}, {confN} samples, six-sigma bands')
+             f'lattice: every configuration with <= 2 deviations from {LATTICE_BASE} over the extended alphabets '
+             + '; '.join(f'{n}{v}' for n, v in ax.items()) + f' x RNG answer{ANSWERS} (scale x integer/float16 samples left out); '
+             f'sequence: one shared input object, grid switches g1,g2,g1 over all ordered pairs of 6 grid spellings (reconfigured with/without gv.clean()), '
+             f'sweeps of G / NF / BW and 5-stage EDFA chains, writable and write-protected, every step decided by the complete scripted oracle; '
+             f'ase-basis: all 4N impulse answers for N=8 (and N=1,2,3) over layout x noise{{absent,complex}} x G x NF x gv; non-optical: {len(BAD_KINDS)} input classes x BW x (G,NF) x call form; '
+             f'conformance: numpy global RNG reseeded with {conf_seeds}, {confN} samples, six-sigma bands; '
+             f'fluct: real RNG, N in 1..4 (thorough ..16), ceil({confN}/N) successive calls on one shared input, six-sigma bands')
     ctx.assume('numpy.random.randn returns i.i.d. standard normal deviates (trusted; bound to the scripted seam by the conformance part)')
     ctx.assume('BPF (devices.BPF) is the optical filter meant by the statement (its own properties are C11); gv.f0 = c/wavelength (C14)')
     ctx.assume('the RNG seam: EDFA draws its ASE through exactly one numpy.random.randn(4, N) request (any other request is reported as rng:request-log)')
+    ctx.assume('a G / NF scalar or a sample array of less than double precision (float16, float32, complex64) may be processed in its own precision: '
+               'the rounding tolerances scale with that eps')
 
     cases = []
     for N, lay, nk, G, NF, (wl, fs), bw, ak in itertools.product(Ns, LAYOUTS, NKINDS, Gs, NFs, gvs, BWs, ANSWERS):
@@ -591,14 +1011,32 @@ def run(ctx):
     cases.sort(key=lambda c: (c[0], c[7] is not None, LAYOUTS.index(c[1]), NKINDS.index(c[2]), order[c[8]], c[3], c[4], -c[5], c[6], c[7] or 0))
     ctx.pmap('scripted', case_scripted, cases, horizon=20)
 
-    bcases = [(8, lay, nk, G, NF, wl, fs, seed) for lay, nk, G, NF, (wl, fs) in itertools.product(LAYOUTS, ['absent', 'complex'], Gs, NFs, gvs)]
+    done = set(cases)
+    lcases = [c for c in lattice_cases(ctx.quick, seed) if not (c[10] == () and c[:10] in done)]
+    ctx.pmap('lattice', case_scripted, lcases, horizon=30)
+
+    ctx.pmap('sequence', case_sequence, sequence_cases(ctx.quick, seed), horizon=60)
+
+    bcases = [(N, lay, nk, G, NF, wl, fs, seed) for N, lay, nk, G, NF, (wl, fs) in itertools.product([1, 2, 3, 8], LAYOUTS, ['absent', 'complex'], Gs, NFs, gvs)]
     ctx.pmap('ase-basis', case_basis, bcases, horizon=20)
 
-    tcases = [(k, 8, 20, 5, wl, fs, bw) for k, (wl, fs), bw in itertools.product(BAD_KINDS, gvs, BWs)]
+    tcases = [(k, 8, G, NF, wl, fs, bw, form) for k, (G, NF), (wl, fs), bw, form in
+              itertools.product(BAD_KINDS, [(20, 5), (0, 3), (40, 10.0)], gvs, BWs, ['pos', 'kw'])]
     ctx.pmap('non-optical', case_bad, tcases, horizon=20)
 
     ccases = []
-    confG = [(3, 3), (20, 5), (40, 10)] if ctx.quick else [(1, 3), (3, 10), (20, 5), (40, 7)]
-    for rs, (G, NF), (wl, fs), lay, nk in itertools.product(conf_seeds, confG, gvs, ['1pol', '2pol'], ['absent', 'complex']):
+    # (G, NF): interior points and the corners of the documented ranges [0, 40] dB x [3, 10] dB
+    confG = [(3, 3), (20, 5), (40, 10), (40, 3), (0, 10), (('np.float32', 3), 10.0)] if ctx.quick else \
+        [(1, 3), (3, 10), (20, 5), (40, 7), (40, 3), (40, 10), (0, 3), (0.0, 10), (('np.float32', 3), 10.0), (17.3, ('np.int64', 3))]
+    for rs, (G, NF), (wl, fs), (lay, nk) in itertools.product(conf_seeds, confG, gvs, [('1pol', 'absent'), ('1pol', 'complex'), ('2pol', 'absent'),
+                                                                                      ('2pol', 'complex'), ('2pol-empty-y', 'complex')]):
         ccases.append((confN, lay, nk, G, NF, wl, fs, seed, (seed * 1000003 + rs) % (2 ** 32)))
     ctx.pmap('conformance', case_conf, ccases, horizon=60)
+
+    fcases = []
+    fN = [1, 2, 3, 4] if ctx.quick else [1, 2, 3, 4, 5, 8, 16]
+    fin = [('1pol', 'absent'), ('1pol', 'complex'), ('2pol', 'complex')] + ([] if ctx.quick else [('2pol', 'absent'), ('2pol-empty-y', 'complex')])
+    fG = [(3, 3), (40, 10)] if ctx.quick else [(3, 3), (20, 5), (40, 10), (1, 10.0)]
+    for rs, N, (lay, nk), (G, NF), (wl, fs) in itertools.product(conf_seeds[:1] if ctx.quick else conf_seeds[:2], fN, fin, fG, gvs[:1] if ctx.quick else gvs[:2]):
+        fcases.append((N, -(-confN // N), lay, nk, G, NF, wl, fs, seed, (seed * 1000003 + 77 + rs) % (2 ** 32)))
+    ctx.pmap('fluct', case_fluct, fcases, horizon=120)
